@@ -101,6 +101,7 @@ func cmdCheck(args []string) int {
 		}
 		cfg.Stall = hs.Stall
 		cfg.TimeFixed = hs.TimeFixed
+		cfg.TimersMayFire = hs.TimersMayFire
 		if hs.Stall && hs.Steps == 0 {
 			cfg.StepBudget = 600000
 		}
@@ -185,6 +186,7 @@ func cmdCheck(args []string) int {
 			}
 			continue
 		}
+		isolated := 0
 		for k, rf := range refs {
 			nr := out[k]
 			if rf.viol != nil {
@@ -201,6 +203,22 @@ func cmdCheck(args []string) int {
 					ok = nr.Outcome == "timeout" || nr.Outcome == "deadlock"
 				case "race":
 					ok = nr.Outcome == "race" || nr.Race
+				}
+				if !ok && nr.Outcome == "ok" && isolated < 8 {
+					// the batch shares one process: package-level state left by earlier cases (counters,
+					// registries) can mask a counterexample. Re-run this candidate alone in a fresh process.
+					isolated++
+					if solo, err := runNative(pkg, []nativeCase{cases[k]}, race); err == nil && len(solo) == 1 {
+						nr = solo[0]
+						switch v.Kind {
+						case "assert":
+							ok = nr.Outcome == "assert" && nr.Label == v.Label
+						case "panic":
+							ok = nr.Outcome == "panic"
+						case "race":
+							ok = nr.Outcome == "race" || nr.Race
+						}
+					}
 				}
 				if !ok {
 					a.mismatched++
